@@ -11,7 +11,7 @@
 
 using namespace sim;
 
-namespace sim { RunResult RunLogChain(Tape& tape, const std::string& profile, bool thorough); }
+namespace sim { RunResult RunLogChain(Tape& tape, const std::string& profile, bool thorough); int RealChildMain(int, char**); int FidelityMain(uint64_t seed, uint64_t first, uint64_t count, const std::string& realninja, const std::string& self); }
 
 static RunResult RunAny(Tape& t, const Profile& prof, const std::string& profile, const std::string& tier) {
   if (profile == "C08" || profile == "C09") return RunLogChain(t, profile, tier == "thorough");
@@ -169,6 +169,7 @@ int main(int argc, char** argv) {
   GlobalInit();
   if (argc < 2) { fprintf(stderr, "usage: simninja run|replay|shrink|logdrv ...\n"); return 2; }
   std::string cmd = argv[1];
+  if (cmd == "realchild") return RealChildMain(argc, argv);
   std::string profile = "C01", tier = "quick", outdir = "/tmp";
   uint64_t seed = 1, first = 0, count = 1, scen_seed = 0;
   std::string file;
@@ -187,6 +188,12 @@ int main(int argc, char** argv) {
     else if (a == "--prop" || a == "--cls") next();
     else if (a == "--scen-seed") scen_seed = strtoull(next().c_str(), nullptr, 10);
     else file = a;
+  }
+  if (cmd == "fidelity") {
+    char selfp[4096];
+    ssize_t n = readlink("/proc/self/exe", selfp, sizeof selfp - 1);
+    selfp[n > 0 ? n : 0] = 0;
+    return FidelityMain(seed, first, count, file, selfp);
   }
   if (cmd == "run") {
     Profile prof = GetProfile(profile, tier == "thorough");
